@@ -909,3 +909,144 @@ def ref_models_agg(spec_ast, order, limit=20000):
                 universe.update(t)
     universe = sorted(universe, key=lambda v: (isinstance(v, str), v))
     return [M for M in ms if all(agg_sentence_ok(s, M, universe) for s in aggs)]
+
+
+# ---------------------------------------------------------------------------
+# C04: preferences
+# ---------------------------------------------------------------------------
+DIR_MEANING = {'is minimized': +1, 'is maximized': -1, 'as little as possible': +1, 'as much as possible': -1}
+PRIO_WORDS = {'low': 1, 'medium': 2, 'high': 3}
+
+
+def prio_phrase(rng, level):
+    """text and AST of a priority phrase that MEANS `level`"""
+    names = [w for w, l in PRIO_WORDS.items() if l == level]
+    if names and rng.random() < 0.6:
+        return f'with {names[0]} priority', {'k': 'named', 'w': names[0]}
+    return f'with priority {level}', {'k': 'number', 'n': level}
+
+
+def pref_sentence(rng, sp, level):
+    ctx = Ctx(rng, sp.pref)
+    if rng.random() < 0.3:
+        ctx.pool = ['X1', 'Y2', 'B1', 'I2', 'K9'] + list(LABELS[:3])     # labels with digits are labels too
+        rng.shuffle(ctx.pool)
+        ctx.pref = {}
+    ptxt, past = prio_phrase(rng, level)
+    comma = rng.random() < 0.7
+    forms = ['agg', 'agg', 'situation', 'situation']
+    un_num = [v for v in sp.verbs if not v.obj and v.subj.kind == 'num']
+    if un_num or any(v.obj for v in sp.verbs):
+        forms.append('var')
+    form = rng.choice(forms)
+    if form == 'agg':
+        for _ in range(10):
+            part = agg_part(rng, sp, ctx, allow_global=False)
+            if part and not part[4]:
+                break
+        else:
+            return None
+        txt, fn, tup, cond, wh, wast, size, f1 = part
+        phrase = rng.choice(['is minimized', 'is maximized'])
+        r = ctx.fresh()
+        t = f'It is preferred{"," if comma else ""} {ptxt}{"," if comma else ""} that {txt} {phrase}.'
+        return Sentence(t, {'k': 'aggOpt', 'phrase': phrase, 'prio': past, 'fn': fn, 'tuple': tup, 'cond': cond, 'r': r['v']}, 'pref-agg')
+    if form == 'situation':
+        if not sp.verbs:
+            return None
+        v = rng.choice(sp.verbs)
+        phrase = rng.choice(['as little as possible', 'as little as possible', 'as much as possible'])
+        x = ctx.label(v.subj.name)
+        se = ent(v.subj, ctx.var(x), ctx=ctx)
+        params = [ctx.var(x)]
+        neg = (v.obj is None) and rng.random() < 0.3
+        txt = f'{art(v.subj.name)} {v.subj.name} with id {x} is {"not " if neg else ""}{v.words}'
+        oe = None
+        if v.obj:
+            y = ctx.label(v.obj.name)
+            oe = ent(v.obj, ctx.var(y), ctx=ctx)
+            params.append(ctx.var(y))
+            txt += f' {art(v.obj.name)} {v.obj.name} with id {y}'
+        cs = [{'k': 'verb', 'v': verbuse(v, neg, se, oe)}]
+        if neg:
+            txt += f', whenever there is {art(v.subj.name)} {v.subj.name} with id {x}'
+            cs.append({'k': 'ent', 'neg': False, 'e': ent(v.subj, ctx.var(x), ctx=ctx)})
+        t = f'It is preferred {phrase}{"," if comma else ""} {ptxt}{"," if comma else ""} that {txt}.'
+        return Sentence(t, {'k': 'situation', 'phrase': phrase, 'prio': past, 'cs': cs, 'params': params}, 'pref-situation')
+    # variable
+    phrase = rng.choice(['is minimized', 'is maximized'])
+    cands = [v for v in sp.verbs if (not v.obj and v.subj.kind == 'num') or (v.obj and (v.subj.kind == 'num' or v.obj.kind == 'num' or v.obj.attr))]
+    if not cands:
+        return None
+    v = rng.choice(cands)
+    x = ctx.label(v.subj.name)
+    if not v.obj:
+        cs = [{'k': 'ent', 'neg': False, 'e': {'c': v.pred, 'a': [ctx.var(x)], 'k': 1}}]
+        t = (f'It is preferred{"," if comma else ""} {ptxt}{"," if comma else ""} that whenever there is {art(v.pred)} {v.pred} with '
+             f'{v.subj.name} id {x}, {x} {phrase}.')
+        return Sentence(t, {'k': 'varOpt', 'phrase': phrase, 'prio': past, 'v': ctx.var(x), 'cs': cs, 'params': [ctx.var(x)]}, 'pref-var')
+    y = ctx.label(v.obj.name)
+    cs = [{'k': 'ent', 'neg': False, 'e': {'c': v.pred, 'a': [ctx.var(x), ctx.var(y)], 'k': 2}}]
+    whs = f'whenever there is {art(v.pred)} {v.pred} with {v.subj.name} id {x}, with {v.obj.name} id {y}'
+    params = [ctx.var(x), ctx.var(y)]
+    if v.obj.attr:
+        k = ctx.label()
+        cs.append({'k': 'ent', 'neg': False, 'e': ent(v.obj, ctx.var(y), ctx.var(k))})
+        whs += f', whenever there is {art(v.obj.name)} {v.obj.name} with id {y}, and with {v.obj.attr} {k}'
+        params.append(ctx.var(k))
+        target, tt = k, ctx.var(k)
+    elif v.subj.kind == 'num':
+        target, tt = x, ctx.var(x)
+    else:
+        target, tt = y, ctx.var(y)
+    t = f'It is preferred{"," if comma else ""} {ptxt}{"," if comma else ""} that {whs}, {target} {phrase}.'
+    return Sentence(t, {'k': 'varOpt', 'phrase': phrase, 'prio': past, 'v': tt, 'cs': cs, 'params': params}, 'pref-var')
+
+
+def pref_level(p):
+    pr = p['prio']
+    return PRIO_WORDS[pr['w']] if pr['k'] == 'named' else pr['n'] if pr['k'] == 'number' else 1
+
+
+def pref_quantity(p, M, universe):
+    """the signed quantity the sentence asks to make small (the direct reading)"""
+    sign = DIR_MEANING[p['phrase']]
+    if p['k'] == 'aggOpt':
+        v = agg_value({'fn': p['fn'], 'tuple': p['tuple'], 'cond': p['cond']}, {}, M, universe)
+        if v is None:
+            raise ValueError('empty max / min')
+        return sign * v
+    vs = sorted({x for c in p['cs'] for x in clause_vars(c)})
+    tuples = set()
+    for env in envs(vs, universe):
+        if all(clause_holds(c, env, M) for c in p['cs']):
+            tup = tuple(term_val(t, env) for t in p['params'])
+            if p['k'] == 'situation':
+                tuples.add((1, tup))
+            else:
+                w = term_val(p['v'], env)
+                if not isinstance(w, int):
+                    raise ValueError('non-numeric weight')
+                tuples.add((w, tup))
+    return sign * sum(w for w, _ in tuples)
+
+
+def ref_optimal(spec_ast, prefs, order, limit=20000):
+    ms = ref_models(spec_ast, order, limit)
+    if ms is None:
+        return None
+    universe = set()
+    for s in spec_ast:
+        if s['k'] == 'facts':
+            for t in s['tuples']:
+                universe.update(t)
+    universe = sorted(universe, key=lambda v: (isinstance(v, str), v))
+    levels = sorted({pref_level(p) for p in prefs}, reverse=True)
+    scored = []
+    for M in ms:
+        vec = tuple(sum(pref_quantity(p, M, universe) for p in prefs if pref_level(p) == l) for l in levels)
+        scored.append((vec, M))
+    if not scored:
+        return []
+    best = min(v for v, _ in scored)
+    return [M for v, M in scored if v == best]
